@@ -228,6 +228,8 @@ def gen_case(r, hazard=None):
             if ty == "s" and v is not None and types.get(x) == "s":
                 redefined_str = True
             ops.append(("rd:%d:%s" % (x, val_model(ty, v)), ["rdef%s %s %s" % (ty, NAMES[x], val_harness(ty, v))]))
+            # ... and what the rule set holds now: the table itself (names, types, values, count) and a scan through it
+            ops.append(("rs", ["rscan 0 0 78", "dump"]))
         elif k < 5:
             free = [s for s in range(3) if s not in alive]
             if free:
@@ -481,10 +483,12 @@ def run(chk):
         pos = 1
         accepted = []      # compile-time definitions the implementation accepted
         dead = False
+        cur_tok = "-"
         for (tok, hl), mt in zip(c["ops"], toks):
             evals += 1
             kind = tok.split(":")[0]
             opkinds[kind] = opkinds.get(kind, 0) + 1
+            prev_tok, cur_tok = cur_tok, tok
             want_lines = [x for x in hl if not x.startswith("sel ") and x not in ("sdestroy", "use loaded")]
             got = lines[pos:pos + len(want_lines)]
             crashed = any(l.startswith("crash") for l in lines[pos:pos + len(want_lines)]) or (
@@ -542,6 +546,21 @@ def run(chk):
                 bits, rc = verdicts(got[0], len(c["conds"])) if got else (None, None)
                 if mt.startswith("seen"):
                     env, mbits, lbits = parse_seen(mt)
+                    if len(got) > 1 and got[1].startswith("dump"):
+                        # the externals table of the rule set against the model's rule-set values (what a new scanner gets)
+                        tab = []
+                        for nm, ty, val in re.findall(r"E:(\w+):(\d+):([^;]*);", got[1]):
+                            if ty in ("2", "3"):
+                                tab.append((nm, "i", int(val)))
+                            elif ty == "1":
+                                tab.append((nm, "f", Fraction(float(val))))
+                            else:
+                                tab.append((nm, "s", vlib.unhx(val) if val != "null" else None))
+                        want_tab = [(NAMES[k], v[0], v[1]) for k, v in env.items()]
+                        if tab != want_tab:
+                            okc = False
+                            chk.violation("externals-table", "%s: after '%s' the rule set's externals table is %s, the model's %s" % (
+                                cid, prev_tok, tab, want_tab), replay)
                     if bits != mbits or rc != 0:
                         okc = False
                         chk.violation("corr-verdict", "%s: scan '%s' reports %s rc=%s, model %s (values %s)" % (cid, tok, bits, rc, mbits, mt[:200]), replay)
